@@ -863,6 +863,7 @@ pub fn witnesses() -> Vec<String> {
     "id: conv1\nlanguage: js\nrule: {kind: identifier, pattern: $V}\ntransform: {X: {convert: {source: $V, toCase: snakeCase}}}\nfix: $X\n".into(),
     "id: conv2\nlanguage: js\nrule: {kind: identifier, pattern: $V}\ntransform: {X: {convert: {source: $V, toCase: camelCase}}, Y: {convert: {source: $V, toCase: kebabCase, separatedBy: [caseChange]}}, Z: {convert: {source: $V, toCase: pascalCase, separatedBy: [underscore, caseChange]}}}\nfix: $X $Y $Z\n".into(),
     "id: conv3\nlanguage: js\nrule: {kind: identifier, pattern: $V}\ntransform: {X: {convert: {source: $V, toCase: capitalize}}, Y: {convert: {source: $V, toCase: upperCase}}, Z: {convert: {source: $V, toCase: lowerCase}}}\nfix: $X $Y $Z\n".into(),
+    "id: rwself\nlanguage: js\nrule: {pattern: foo($A)}\ntransform: {B: {rewrite: {source: $A, rewriters: [rw]}}}\nrewriters:\n- {id: rw, rule: {kind: identifier, pattern: $X}, transform: {Y: {rewrite: {source: $X, rewriters: [rw]}}}, fix: $Y}\nfix: bar($B)\n".into(),
     "id: of2\nlanguage: js\nutils:\n  U: {kind: identifier, nthChild: {position: 1, ofRule: {matches: W}}}\n  W: {any: [{matches: U}]}\nrule: {kind: identifier, matches: U}\n".into(),
   ]
 }
